@@ -5,6 +5,7 @@
 mod ctx;
 mod rng;
 mod c09;
+mod c14;
 
 use ctx::{Ctx, Tier};
 
@@ -54,6 +55,7 @@ fn main() {
     let mut ctx = Ctx::new(seed, tier, only, n);
     let rule = match prop.as_str() {
         "C09" => c09::run(&mut ctx),
+        "C14" => c14::run(&mut ctx),
         _ => {
             eprintln!("unknown property {}", prop);
             std::process::exit(2);
